@@ -41,6 +41,35 @@ def changeBase (S : Storage) (l r : S.T) (v : S.V) : S.V :=
 def roundInUnit (S : Storage) (op : S.V → S.V) (coef consA consS f : S.T) (v : S.V) : S.V :=
   toBase S coef consA f (op (fromBase S coef consS f v))
 
+/-- `num_traits::pow::pow(base, exp)`: exponentiation by squaring, exactly as the library multiplies
+    (so that the float instance rounds where the real code rounds); `fuel` bounds the two loops -/
+def powLoop2 (mul : α → α → α) : Nat → α → α → Nat → α
+  | 0, _, acc, _ => acc
+  | fuel + 1, base, acc, exp =>
+    if exp > 1 then
+      let exp := exp / 2
+      let base := mul base base
+      let acc := if exp % 2 = 1 then mul acc base else acc
+      powLoop2 mul fuel base acc exp
+    else acc
+
+def powLoop1 (mul : α → α → α) : Nat → α → Nat → α × Nat
+  | 0, base, exp => (base, exp)
+  | fuel + 1, base, exp => if exp % 2 = 0 then powLoop1 mul fuel (mul base base) (exp / 2) else (base, exp)
+
+def powNat (one : α) (mul : α → α → α) (base : α) (exp : Nat) : α :=
+  if exp = 0 then one
+  else
+    let (base, exp) := powLoop1 mul 64 base exp
+    if exp = 1 then base else powLoop2 mul 64 base base exp
+
+/-- `ConversionFactor::powi` for float storage (src/lib.rs): `pow(self, e)` for `e > 0`,
+    `pow(self.recip(), −e)` for `e < 0`, `one()` for `e = 0` -/
+def flPowi (f : Fmt) (c : Fl) (e : Int) : Fl :=
+  if e = 0 then Fl.one f
+  else if e < 0 then powNat (Fl.one f) (Fl.mul f) (Fl.recip f c) (-e).toNat
+  else powNat (Fl.one f) (Fl.mul f) c e.toNat
+
 /-- exact integer power of a rational (`Ratio::pow`, and the `recip`+`pow` of the big types) -/
 def ratPowi (c : Rat) (e : Int) : Rat := c ^ e
 
